@@ -114,7 +114,9 @@ func loadPkg(repo, dir string) (*pkgInfo, error) {
 		p.files = append(p.files, f)
 		for _, d := range f.Decls {
 			gd, ok := d.(*ast.GenDecl)
-			if !ok || gd.Tok != token.CONST {
+			// package-level variables initialised by a constant expression (hub.go keeps its
+			// timeouts in a var block) are read like constants
+			if !ok || (gd.Tok != token.CONST && gd.Tok != token.VAR) {
 				continue
 			}
 			var last []ast.Expr
@@ -128,6 +130,9 @@ func loadPkg(repo, dir string) (*pkgInfo, error) {
 				}
 				for j, name := range vs.Names {
 					if j < len(vals) {
+						if _, have := p.consts[name.Name]; have && gd.Tok == token.VAR {
+							continue
+						}
 						p.consts[name.Name] = &constDecl{expr: vals[j], iota: i}
 					}
 				}
